@@ -125,21 +125,31 @@ fn parse_seq(docs: &[Vec<u8>]) -> Result<Element<String>, String> {
 // ------------------------------------------------------------------------------------------------ rendered text
 /// (struct name, [(field ident, type text)]) in order of appearance
 fn parse_rendered(src: &str) -> Vec<(String, Vec<(String, String)>)> {
+    parse_rendered_full(src).into_iter().map(|(n, f)| (n, f.into_iter().map(|(i, t, _)| (i, t)).collect())).collect()
+}
+/// (struct name, [(field ident, type text, serde name = rename attribute or the ident)])
+fn parse_rendered_full(src: &str) -> Vec<(String, Vec<(String, String, String)>)> {
     let mut out = Vec::new();
-    let mut cur: Option<(String, Vec<(String, String)>)> = None;
+    let mut cur: Option<(String, Vec<(String, String, String)>)> = None;
+    let mut rename: Option<String> = None;
     for l in src.lines() {
         let t = l.trim();
         if let Some(rest) = t.strip_prefix("pub struct ") {
             let name = rest.trim_end_matches('{').trim().to_string();
             cur = Some((name, Vec::new()));
+            rename = None;
         } else if t == "}" {
             if let Some(c) = cur.take() {
                 out.push(c);
             }
+        } else if let Some(rest) = t.strip_prefix("#[serde(rename = \"") {
+            rename = rest.strip_suffix("\")]").map(|x| x.to_string());
         } else if let Some(rest) = t.strip_prefix("pub ") {
             if let Some((id, ty)) = rest.split_once(':') {
                 if let Some(c) = cur.as_mut() {
-                    c.1.push((id.trim().to_string(), ty.trim().trim_end_matches(',').to_string()));
+                    let id = id.trim().to_string();
+                    let serde = rename.take().unwrap_or_else(|| id.clone());
+                    c.1.push((id, ty.trim().trim_end_matches(',').to_string(), serde));
                 }
             }
         }
@@ -199,55 +209,61 @@ fn uniq_deep(v: &V, path: &str) -> Option<String> {
     None
 }
 
-/// C09 rendering half for names that need no renaming: first struct's fields are attributes, text, children in first-appearance order
+/// C09 rendering half: the first struct's fields are attributes, text, children - each group in first-appearance order,
+/// or ordered by XML name when sorting is requested.  Fields are identified by their serde names ("@local" for
+/// attributes, "$text", "local" for children), so this needs distinct local names within each group.
 fn render_order(root: &Element<String>, s: &oracle::S) -> Option<String> {
-    let plain = |n: &str| n.chars().all(|c| c.is_ascii_lowercase()) && n.len() == 1;
-    if !s.attrs.iter().all(|(_, a)| plain(a)) || !s.kids.iter().all(|(_, _, k)| plain(&k.name)) {
+    let local = |n: &str| -> String { match n.find(':') { Some(i) if !n.starts_with("xmlns:") => n[i + 1..].to_string(), _ => n.to_string() } };
+    let attrs: Vec<String> = s.attrs.iter().map(|(_, a)| a.clone()).collect();
+    let kids: Vec<String> = s.kids.iter().map(|(_, _, k)| k.name.clone()).collect();
+    let distinct = |v: &Vec<String>| { let mut d: Vec<String> = v.iter().map(|x| local(x)).collect(); d.sort(); let n = d.len(); d.dedup(); d.len() == n };
+    if !distinct(&attrs) || !distinct(&kids) || attrs.iter().any(|a| a.starts_with("xmlns")) {
         return None;
     }
-    let names: Vec<String> = s.attrs.iter().map(|(_, a)| a.clone()).chain(s.kids.iter().map(|(_, _, k)| k.name.clone())).collect();
-    let mut d = names.clone();
-    d.sort();
-    d.dedup();
-    if d.len() != names.len() {
-        return None; // attribute/child name clash triggers renaming
-    }
-    let out = root.to_serde_struct(&Options::quick_xml_de());
-    let structs = parse_rendered(&out);
-    let first = structs.first()?;
-    let got: Vec<String> = first.1.iter().map(|(id, _)| id.clone()).collect();
-    let mut want: Vec<String> = s.attrs.iter().map(|(_, a)| a.clone()).collect();
-    if s.text {
-        want.push("text".into());
-    }
-    want.extend(s.kids.iter().map(|(_, _, k)| k.name.clone()));
+    let expect = |attrs: &Vec<String>, kids: &Vec<String>| -> Vec<String> {
+        let mut w: Vec<String> = attrs.iter().map(|a| format!("@{}", local(a))).collect();
+        if s.text {
+            w.push("$text".into());
+        }
+        w.extend(kids.iter().map(|k| local(k)));
+        w
+    };
     let same_set = |a: &Vec<String>, b: &Vec<String>| { let (mut x, mut y) = (a.clone(), b.clone()); x.sort(); y.sort(); x == y };
+    let out = root.to_serde_struct(&Options::quick_xml_de());
+    let structs = parse_rendered_full(&out);
+    let first = structs.first()?;
+    let got: Vec<String> = first.1.iter().map(|(_, _, sn)| sn.clone()).collect();
+    let want = expect(&attrs, &kids);
     if !same_set(&got, &want) {
-        return None; // the rendering cannot be read back field by field (renamed fields or another layout): no verdict
+        return None; // the rendering cannot be read back field by field (another layout): no verdict
     }
     if got != want {
-        return Some(format!("rendered field order of the first struct is {:?}, expected attributes, text, children in first-appearance order {:?}", got, want));
+        return Some(format!("rendered field order (serde names) of the first struct is {:?}, expected attributes, text, children in first-appearance order {:?}", got, want));
     }
-    // sort-by-name option: attributes and children each ordered by XML name
+    // sort-by-name option: attributes and children each ordered by their XML name
     let mut o = Options::quick_xml_de();
     o.sort = SortBy::XmlName;
     let out2 = root.to_serde_struct(&o);
-    let st2 = parse_rendered(&out2);
-    let got2: Vec<String> = st2.first()?.1.iter().map(|(id, _)| id.clone()).collect();
-    let mut a: Vec<String> = s.attrs.iter().map(|(_, a)| a.clone()).collect();
-    a.sort();
-    let mut k: Vec<String> = s.kids.iter().map(|(_, _, k)| k.name.clone()).collect();
-    k.sort();
-    let mut want2 = a;
-    if s.text {
-        want2.push("text".into());
-    }
-    want2.extend(k);
+    let st2 = parse_rendered_full(&out2);
+    let got2: Vec<String> = st2.first()?.1.iter().map(|(_, _, sn)| sn.clone()).collect();
+    let mut a2 = attrs.clone();
+    a2.sort();
+    let mut k2 = kids.clone();
+    k2.sort();
+    let want2 = expect(&a2, &k2);
     if !same_set(&got2, &want2) {
         return None;
     }
     if got2 != want2 {
-        return Some(format!("with sort-by-name the first struct's fields are {:?}, expected {:?}", got2, want2));
+        return Some(format!("with sort-by-name the first struct's fields (serde names) are {:?}, expected each group ordered by XML name {:?}", got2, want2));
+    }
+    // switching the option changes nothing but these orders: same set of struct names
+    let mut n1: Vec<String> = structs.iter().map(|x| x.0.clone()).collect();
+    let mut n2: Vec<String> = st2.iter().map(|x| x.0.clone()).collect();
+    n1.sort();
+    n2.sort();
+    if n1 != n2 {
+        return Some(format!("switching the sort option changes the set of structs: {:?} vs {:?}", n1, n2));
     }
     None
 }
@@ -271,7 +287,7 @@ fn lab_attrs() -> Labels {
 /// the document sequences every tree-level property is searched over
 fn sequences(tier: &str, seed: u64, mut f: impl FnMut(&[Vec<u8>]) -> bool) {
     let st = Style::default();
-    let st_long = Style { short_empty: false, ..Style::default() };
+    let st_long = Style { short_empty: false, text_last: true, ..Style::default() };
     let thorough = tier == "thorough";
     // singles
     let mut singles: Vec<Node> = Vec::new();
@@ -328,7 +344,7 @@ fn sequences(tier: &str, seed: u64, mut f: impl FnMut(&[Vec<u8>]) -> bool) {
         let mut xs = Vec::new();
         for _ in 0..k {
             let d = random_doc(&mut rng, &["a", "b", "c"], &["x", "y", "z"], 3, 9);
-            let s = Style { short_empty: rng.chance(1, 2), ..Style::default() };
+            let s = Style { short_empty: rng.chance(1, 2), text_last: rng.chance(1, 2), ..Style::default() };
             xs.push(write_doc(&d, &s).into_bytes());
         }
         if f(&xs) {
@@ -337,10 +353,58 @@ fn sequences(tier: &str, seed: u64, mut f: impl FnMut(&[Vec<u8>]) -> bool) {
     }
 }
 
+fn prefixed_docs(seed: u64, n: usize) -> Vec<Vec<Vec<u8>>> {
+    // children and attributes whose qualified-name order differs from their local-name order
+    let mut rng = Rng(seed ^ 0xc09);
+    let names = ["z:alpha", "b:zeta", "m", "k:beta", "plain", "a:omega"];
+    let attrs = ["z:p", "a:q", "n", "y:a"];
+    let mut out = Vec::new();
+    for _ in 0..n {
+        let k = 1 + rng.below(2);
+        let mut seq = Vec::new();
+        for _ in 0..k {
+            let mut root = Node { name: "r".into(), attrs: vec![], text: rng.below(2) as u8, kids: vec![] };
+            for a in attrs.iter() {
+                if rng.chance(1, 2) {
+                    root.attrs.push(a.to_string());
+                }
+            }
+            if rng.chance(1, 2) {
+                root.attrs.reverse();
+            }
+            let mut order: Vec<&str> = names.to_vec();
+            for i in (1..order.len()).rev() {
+                order.swap(i, rng.below(i + 1));
+            }
+            for nm in order.iter().take(1 + rng.below(names.len())) {
+                root.kids.push(Node { name: nm.to_string(), attrs: vec![], text: rng.below(2) as u8, kids: vec![] });
+            }
+            seq.push(write_doc(&root, &Style::default()).into_bytes());
+        }
+        out.push(seq);
+    }
+    out
+}
+
 fn search_tree_prop(prop: &str, tier: &str, seed: u64) {
     let mut stats = Stats::new();
     let mut sample = String::new();
     let mut found = false;
+    if prop == "C09" {
+        for xs in prefixed_docs(seed, if tier == "thorough" { 5000 } else { 600 }) {
+            let key = xs.iter().map(|x| String::from_utf8_lossy(x).into_owned()).collect::<Vec<_>>().join("\u{1}");
+            stats.note(&key);
+            if let Ok(Some(e)) = std::panic::catch_unwind(|| check_docs(prop, &xs)) {
+                witness_docs(prop, &xs, &e);
+                found = true;
+                break;
+            }
+        }
+    }
+    if found {
+        stats.print("documents with namespace-prefixed child and attribute names (qualified-name order differs from local-name order)", "");
+        return;
+    }
     sequences(tier, seed, |xs| {
         let key = xs.iter().map(|x| String::from_utf8_lossy(x).into_owned()).collect::<Vec<_>>().join("\u{1}");
         if stats.evals == 7 {
@@ -367,36 +431,42 @@ fn search_tree_prop(prop: &str, tier: &str, seed: u64) {
 }
 
 // ------------------------------------------------------------------------------------------------ C05
+fn render_all(docs: &[Vec<u8>]) -> Option<String> {
+    let r = parse_seq(docs).ok()?;
+    let mut o = Options::quick_xml_de();
+    let a = r.to_serde_struct(&o);
+    o.sort = SortBy::XmlName;
+    let b = r.to_serde_struct(&Options::serde_xml_rs());
+    let c = r.to_serde_struct(&o);
+    Some(format!("{a}\n----\n{b}\n----\n{c}\n----\n{:?}", r))
+}
+
+/// self-contained: the same sequence is parsed and rendered (a) in a fresh thread, (b) in a thread that has first
+/// rendered other trees with the same root name and every prefix of the sequence, (c) repeatedly in this thread
 fn check_c05(docs: &[Vec<u8>], reps: usize) -> Option<String> {
-    let render = |docs: &[Vec<u8>]| -> Option<String> {
-        let r = parse_seq(docs).ok()?;
-        let mut o = Options::quick_xml_de();
-        let a = r.to_serde_struct(&o);
-        o.sort = SortBy::XmlName;
-        let b = r.to_serde_struct(&Options::serde_xml_rs());
-        let c = r.to_serde_struct(&o);
-        Some(format!("{a}\n----\n{b}\n----\n{c}\n----\n{:?}", r))
-    };
-    let first = render(docs)?;
+    let d1: Vec<Vec<u8>> = docs.to_vec();
+    let fresh = std::thread::spawn(move || render_all(&d1)).join().ok()??;
+    let root = dom(&docs[0]).map(|n| n.name).unwrap_or_else(|| "r".to_string());
+    let d2: Vec<Vec<u8>> = docs.to_vec();
+    let used = std::thread::spawn(move || {
+        for decoy in [format!("<{0}><zz><q/></zz><q/></{0}>", root), format!("<{0}><p><Foo/><q><Foo/></q></p><Foo/></{0}>", root), format!("<{0}/>", root)] {
+            let _ = render_all(&[decoy.into_bytes()]);
+        }
+        for k in 1..d2.len() {
+            let _ = render_all(&d2[..k]);
+        }
+        render_all(&d2)
+    })
+    .join()
+    .ok()??;
+    if used != fresh {
+        let (la, lb) = fresh.lines().zip(used.lines()).find(|(x, y)| x != y).unwrap_or(("", ""));
+        return Some(format!("the rendering depends on what the thread rendered before: fresh thread {:?} vs thread that rendered other trees with the same root first {:?}", la, lb));
+    }
     for i in 0..reps {
-        let again = if i % 4 == 3 {
-            let d2: Vec<Vec<u8>> = docs.to_vec();
-            std::thread::spawn(move || {
-                let r = parse_seq(&d2).ok()?;
-                let mut o = Options::quick_xml_de();
-                let a = r.to_serde_struct(&o);
-                o.sort = SortBy::XmlName;
-                let b = r.to_serde_struct(&Options::serde_xml_rs());
-                let c = r.to_serde_struct(&o);
-                Some(format!("{a}\n----\n{b}\n----\n{c}\n----\n{:?}", r))
-            })
-            .join()
-            .ok()??
-        } else {
-            render(docs)?
-        };
-        if again != first {
-            let (la, lb) = first.lines().zip(again.lines()).find(|(x, y)| x != y).unwrap_or(("", ""));
+        let again = render_all(docs)?;
+        if again != fresh {
+            let (la, lb) = fresh.lines().zip(again.lines()).find(|(x, y)| x != y).unwrap_or(("", ""));
             return Some(format!("repetition {} of the same parse+render differs: {:?} vs {:?}", i + 2, la, lb));
         }
     }
@@ -569,6 +639,8 @@ fn check_c11(nodes: &[Node]) -> Option<(Vec<Vec<u8>>, String)> {
         ("processing instructions inserted", Style { pi: true, ..Style::default() }),
         ("text swapped with CDATA", Style { swap_cdata: true, ..Style::default() }),
         ("attribute values and text replaced", Style { alt_values: true, ..Style::default() }),
+        ("text replaced by a reference to an entity declared in the DOCTYPE", Style { entity_text: true, ..Style::default() }),
+        ("character data moved after the child elements", Style { text_last: true, ..Style::default() }),
     ];
     for (nm, st) in &variants {
         let alt: Vec<Vec<u8>> = nodes.iter().map(|n| write_doc(n, st).into_bytes()).collect();
